@@ -39,6 +39,7 @@ NRANDOM = {'quick': 640, 'thorough': 20000}
 
 KEY_MF = 'C12-mass-fraction-material-rejects-density'
 KEY_EP = 'C12-element-proportion-not-in-formula-unit'
+KEY_ND = 'C12-number-density-lost-in-dict-form'
 
 # value in that unit = value in the base unit * factor          (base: g/cm3, cm-3, cm3)
 U_RHO = {'g/cm3': 1.0, 'kg/m3': 1e3, 'kg/l': 1.0, 'g/l': 1e3, 'kg/dm3': 1.0, 'mg/cm3': 1e3, 'g/ml': 1.0}
@@ -120,7 +121,8 @@ def cases(rng, tier, shard, nshards, ctx):
         if r < 0.2:
             case = dict(kind='element', el=R.gen_species(rng, T), prop=rng.choice([1, 1, 1, 2, 3, 7]))
         elif r < 0.5:
-            case = dict(kind='substance', f=R.gen_formula(rng, T, dict(maxdepth=2, maxitems=4, avoid_known=True)))
+            case = dict(kind='substance', form=rng.choice(['string', 'string', 'dict']),
+                        f=R.gen_formula(rng, T, dict(maxdepth=2, maxitems=4, avoid_known=True)))
         else:
             form = rng.choice(['dict', 'string'])
             opts = dict(maxdepth=1, maxitems=3, pgroup=0.25, avoid_known=True, noplus=(form == 'string'))
@@ -164,6 +166,8 @@ def build(ctx, case, du, vu):
     if case['kind'] == 'element':
         return M.Element(R.species_text(case['el']), case['prop'], natural=natural, **kw)
     if case['kind'] == 'substance':
+        if case.get('form') == 'dict':
+            return M.Substance(dict(R.expand(case['f'])[0]), natural=natural, **kw)
         return M.Substance(R.render(case['f']), natural=natural, **kw)
     NORM = M.Norm.NUMBER_FRACTION if case['norm'] == 'number' else M.Norm.MASS_FRACTION
     texts = [R.render(f) for f, _ in case['comps']]
@@ -309,8 +313,8 @@ def run_case(case, ctx):
                'with-volume' if case['vol'] is not None else 'without-volume'}
     if case['kind'] == 'element' and case['prop'] > 1:
         classes.add('element-proportion>1')
-    if case['kind'] == 'material':
-        classes.add(case['form'] + '-form')
+    if case['kind'] != 'element':
+        classes.add(case.get('form', 'string') + '-form')
     # defined species only
     if case['kind'] == 'element':
         idents = {'e': R.species_ident(case['el'])}
@@ -326,9 +330,9 @@ def run_case(case, ctx):
     if any(R.ident_data(T, i, natural) is None for i in idents.values()):
         return _finish(ctx, outcome(skip='species-without-defined-data'))
     base_units = ['g/cm3' if case['dens'][0] == 'mass' else 'cm-3', 'cm3']
-    sample = dict(kind=kindcls, natural=natural, components=given_amounts(case), density=case['dens'], volume_cm3=case['vol'],
+    sample = dict(kind=kindcls, form=case.get('form'), natural=natural, components=given_amounts(case), density=case['dens'], volume_cm3=case['vol'],
                   unit_twins=case['units'])
-    fp = '%s|%s|%r|%r|%r|%r' % (kindcls, natural, given_amounts(case), case['dens'], case['vol'], case['units'])
+    fp = '%s|%s|%s|%r|%r|%r|%r' % (kindcls, case.get('form'), natural, given_amounts(case), case['dens'], case['vol'], case['units'])
     mass_mode = case['kind'] == 'material' and case['norm'] == 'mass'
     try:
         obj = build(ctx, case, *base_units)
@@ -353,6 +357,15 @@ def run_case(case, ctx):
         if not check_identities(case, o, T, devs, dict(mon), twin='element-unit-mass'):
             devs.append(dev('element-proportion-not-in-formula-unit', dict(found=[m for m, _ in found], proportion=case['prop'],
                                                                               rho=o['rho'], n=o['n'], rows=o['rows']), known=KEY_EP))
+            found = []
+    if [m for m, _ in found] == ['given-number-density-not-preserved'] and case.get('form') == 'dict' and len(o['rows']) >= 2:
+        # buggy twin of the recorded defect: components of a dict are added one by one and the densities are re-derived after
+        # each; after the first component rho = n_given * a_1 * m_1 is stored and from then on n is re-derived from that rho.
+        first = list(given_amounts(case))[0]
+        rho_twin = case['dens'][1] * given_amounts(case)[first] * o['masses'][first] * T.da_g
+        if close(o['rho'], rho_twin, RTOL):
+            devs.append(dev('given-number-density-not-preserved', dict(found[0][1], rho_reported=o['rho'],
+                                                                      rho_from_first_component_only=rho_twin), known=KEY_ND))
             found = []
     for mech, detail in found:
         devs.append(dev(mech, detail))
@@ -394,6 +407,8 @@ def pinned(ctx):
         (KEY_MF, dict(kind='material', norm='mass', form='dict', natural=True, dens=['mass', 0.3], vol=None,
                       comps=[[fm([sp('H', n=2), sp('O')]), '0.2'], [fm([sp('Na'), sp('Cl')]), '0.3']],
                       units=[['kg/m3', 'l'], ['kg/l', 'm3']])),
+        (KEY_ND, dict(kind='substance', form='dict', f=fm([sp('H', n=2), sp('O')]), natural=True, dens=['number', 1e22], vol=None,
+                      units=[['m-3', 'l'], ['1/l', 'm3']])),
         (KEY_EP, dict(kind='element', el=sp('O'), prop=2, natural=True, dens=['mass', 0.997], vol=1000.0,
                       units=[['kg/m3', 'l'], ['kg/l', 'm3']])),
     ]
